@@ -57,6 +57,45 @@ void vfp_final(int a, void *c, unsigned char *out) {
     default: GOST34112012Final(c, out); GOST34112012Cleanup(c); break;
   }
 }
+int vfp_resume(int a, void *c, const uint32_t st32[8], const uint64_t st64[8], uint64_t bytes_hi, uint64_t bytes_lo) {
+  switch (a) {
+    case VFP_MD4: {
+      MD4_CTX *x = c;
+      x->a = st32[0]; x->b = st32[1]; x->c = st32[2]; x->d = st32[3];
+      x->lo = (MD4_u32plus)(bytes_lo & 0x1fffffff);
+      x->hi = (MD4_u32plus)(bytes_lo >> 29);
+      return 1;
+    }
+    case VFP_MD5: {
+      MD5_CTX *x = c;
+      x->a = st32[0]; x->b = st32[1]; x->c = st32[2]; x->d = st32[3];
+      x->lo = (MD5_u32plus)(bytes_lo & 0x1fffffff);
+      x->hi = (MD5_u32plus)(bytes_lo >> 29);
+      return 1;
+    }
+    case VFP_SHA1: {
+      struct sha1_ctx *x = c;
+      for (int i = 0; i < 5; i++) x->state[i] = st32[i];
+      x->count[0] = (uint32_t)(bytes_lo << 3);
+      x->count[1] = (uint32_t)(bytes_lo >> 29);
+      return 1;
+    }
+    case VFP_SHA256: {
+      SHA256_CTX *x = c;
+      for (int i = 0; i < 8; i++) x->state[i] = st32[i];
+      x->count = bytes_lo << 3;
+      return 1;
+    }
+    case VFP_SHA512: {
+      SHA512_CTX *x = c;
+      for (int i = 0; i < 8; i++) x->state[i] = st64[i];
+      x->count[0] = (bytes_hi << 3) | (bytes_lo >> 61);
+      x->count[1] = bytes_lo << 3;
+      return 1;
+    }
+    default: return 0;
+  }
+}
 int vfp_has_buf(int a) { return a == VFP_SHA256 || a == VFP_SHA512; }
 void vfp_buf(int a, const void *p, size_t n, unsigned char *out) {
   if (a == VFP_SHA256) SHA256_Buf(p, n, out);
